@@ -428,6 +428,7 @@ package core
 //@   ensures[swallow@C03,C04] sc(s).initStatus != old(sc(s).initStatus) ==> (result == nil && sc(s).initStatus == Initialized && 1 <= sc(s).initStep && sc(s).initStep <= 2
 //@       && slen(sc(s)) == old(slen(sc(s))) - 5 * sc(s).initStep && (forall k int :: (0 <= k && k < slen(sc(s))) ==> sat(sc(s), k) == old(sat(sc(s), k + 5 * sc(s).initStep))))
 //@   ensures[swallow.ok@C04] sc(s).initStatus != old(sc(s).initStatus) ==> (forall k int :: (0 <= k && k < 5 * sc(s).initStep) ==> old(sat(sc(s), k)) == "+OK\r\n+OK\r\n"[k])
+//@   ensures[nomatch@C03,C04] (result == nil && sc(s).initStatus == old(sc(s).initStatus)) ==> (exists k int :: 0 <= k && k < slen(sc(s)) && k < 5 * sc(s).initStep && sat(sc(s), k) != "+OK\r\n+OK\r\n"[k])
 //@   ensures[kept@C03,C04] sc(s).initStatus == old(sc(s).initStatus) ==> (slen(sc(s)) == old(slen(sc(s))) && (forall k int :: (0 <= k && k < slen(sc(s))) ==> sat(sc(s), k) == old(sat(sc(s), k))))
 
 //@ define inq(s) = sc(s).inFragQueue
